@@ -19,13 +19,19 @@ Parts:  'o' outcomes x all views - the original product with unit-scale Hessians
 the 'wide' outcomes with K = 4, 5, 6 parameters (where the list of pairs (i, j), i > j, has more than one plausible
 order, K = 5 fills exactly one line of ten F12 correlations and K = 6 needs a second one): product of Hessian family
 (diagonal / tridiagonal / dense / rank K-1 / rank 1 / zero row) x BHHH x estimates x bootstrap sample (fewer / as many
-/ more replications than parameters / a constant column) x bounds x log likelihoods;
-'c' compile_estimation_results over all ordered tuples of 1..3 models from a pool x all 2^5 flag combinations;
+/ more replications than parameters / a constant column) x bounds x log likelihoods; every K also with a bootstrap
+sample of ONE replication (the whole bootstrap family is undefined and skipped, every other cell is compared);
+'c' compile_estimation_results over all ordered tuples of 1..3 models from a pool x all 2^5 flag combinations x the
+list of statistic rows (default / init-model rows / null-model rows / the rows a model has only conditionally; a row
+that a model of the tuple does not have may be refused with a KeyError naming it, else its cell is empty);
 'p' the same call with every entry given as a results object / the name of its pickle file / a name behind which
 nothing can be read (missing, corrupt, foreign pickle, empty file, directory) - full product of the kinds over the
-positions - and compile_results_in_directory on the same files;  'l' likelihood_ratio_test over a grid;
+positions - and compile_results_in_directory on the same files;  'l' likelihood_ratio_test over the full grid of
+ordered pairs ((L1,K1),(L2,K2)) x level, function and method form, INCLUDING equal log likelihoods (statistic 0) and
+equal parameter counts (no test exists: only a refusal reports no figure);
 'r' real estimations (real BIOGEME objects with 1, 2 and 4 parameters, bootstrap resamples owned through
-numpy.random.randint, the identification_threshold parameter of BIOGEME).
+numpy.random.randint - also tapes of a single replication -, the identification_threshold parameter of BIOGEME; one
+logit starts from non-zero values so that its initial and null log likelihood differ).
 """
 from __future__ import annotations
 
@@ -46,8 +52,8 @@ RULE = ('cases: (o) one case per (raw outcome, view[, switch]) with outcome = el
         'estimates x (null, init) log likelihood x bootstrap sample x bounds x sample size [x parameter scaling x '
         'identification threshold], K = 1..3 with every subset of the names for get_correlation_results, K = 4..6 with '
         'the leave-one-out subsets (a slice with all 2^K subsets) and the F12 report also read back from write_f12; (c) one case per (ordered tuple of 1..3 pool models, 5 flags, statistics list); '
-        '(p) one case per (ordered tuple of 1..3 pool models, kind of each entry - object / pickle file / one of the '
-        'unreadable kinds -, call form dict / directory, flags); (l) one case per ((L1,K1),(L2,K2),alpha) and call form; '
+        '(statistics list: default / init rows / null rows / conditional rows); (p) one case per (ordered tuple of 1..3 pool models, kind of each entry - object / pickle file / one of the '
+        'unreadable kinds -, call form dict / directory, flags); (l) one case per ordered pair ((L1,K1),(L2,K2)), alpha and call form, ties and equal parameter counts included; '
         '(r) one case per (real model, bootstrap tape, identification threshold, view). A case is non-trivial when at least one numeric cell was '
         'compared with the reference (cells whose defining formula is undefined - zero variance, zero divisor - are '
         'skipped and counted); distinct = distinct (part, outcome / tuple / grid point, view, switch) keys.')
@@ -59,7 +65,8 @@ ASSUMPTIONS = [
     'condition number up to about 1e9, still far from floating-point singularity; the library agrees with the exact '
     'reference to 1e-12 there); rescaled outcomes whose robust sandwich has an entry that is an exact or near '
     'cancellation (ratio > 1e6) are excluded and counted; cells whose formula is undefined (zero variance, non-positive pair variance, zero initial '
-    'likelihood, exact ties of the LR test) are skipped and counted, not compared; so are pairwise tests whose variance '
+    'likelihood, every figure of the bootstrap family when the sample holds a single replication - the library shows '
+    'NaN standard errors with t = 0, p = 1 there, a convention that is neither checked nor demanded) are skipped and counted, not compared; a statistic within 1e-9 of the threshold of the LR test is a fragile verdict (counted); so are pairwise tests whose variance '
     'var(i) + var(j) - 2 cov(i,j) is a near cancellation (below 1e-4 of var(i) + var(j) + 2|cov(i,j)|: ill-conditioned; it '
     'occurs only for K >= 4 in the enumerated space) and standard errors of a variance that is exactly zero by the formula '
     'while the library\'s own matrix holds negative rounding noise there (the sign of a computed zero is arbitrary; the '
@@ -74,6 +81,13 @@ ASSUMPTIONS = [
     'which warning is logged for it is not checked; readable pickle files are written by bioResults.write_pickle',
     'results without a Hessian or without an initial log likelihood (quick_estimate) are outside the quantifier; the '
     'initial log likelihood "absent" / "zero" alphabets only check that the remaining cells stay correct',
+    'likelihood_ratio_test: two equal log likelihoods with different parameter counts are an ordinary nested pair '
+    '(statistic 0, not rejected) in either order; for equal parameter counts no chi-square quantile exists, so any '
+    'reported threshold / verdict is a figure without a defining formula - a BiogemeError is the expected answer '
+    '(its wording is not checked)',
+    'compile_estimation_results asked for a row that a model of the call does not have (null-model rows without a null '
+    'log likelihood, free parameters without an active bound, observations equal to the sample size) may refuse with '
+    'the KeyError naming that row (counted); if it answers, the cell must be empty',
     'the reference normal CDF is math.erfc, the chi-square CDF a series / continued fraction written for this check',
 ]
 ANCHOR_FILES = ['src/biogeme/results.py', 'src/biogeme/tools/likelihood_ratio.py']
@@ -201,6 +215,12 @@ BOOT_SETS = [
      'r4': [[1, 0, 0], [0, 2, 3], [3, 1, 1], [2, 5, 2]]},
 ]
 BOOT_SCALE = [1.0, 0.5, 0.25, 2.0, 1.0, 0.125, 4.0, 0.75]
+# 'r1': a bootstrap sample of ONE replication.  The sample covariance (divisor B - 1 = 0) and with it every figure of
+# the bootstrap family is undefined: those cells are skipped and counted, every other cell of every view must still
+# hold the quantity its label names (and no view may fail).
+for _sets in (BOOT_SETS, BOOT_WIDE):
+    for _s in _sets:
+        _s['r1'] = [list(_s['r3'][0])]
 BOUND_KINDS = ['none', 'active', 'near', 'wide']
 N_KINDS = [(10, 30), (1, 1), (1000, 1000)]
 INIT_KINDS = ['present', 'zero', 'equal', 'absent']
@@ -304,6 +324,15 @@ def outcome_space(tier, seed):
         for h, b, v, boot, bd in itertools.product(hs, bs, vs, boots, bds):
             for (nu, i), n in itertools.product(lls, ns):
                 out.append(dict(k=k, h=h, b=b, v=v, boot=boot, bd=bd, null=nu, init=i, n=n))
+        # the single-replication bootstrap sample (appended: the original product keeps its order)
+        if tier == 'quick':
+            bs, vs, bds, lls, ns = ('generic',), (0,), ('none', 'active'), [('present', 'present'), ('absent', 'zero')], (0,)
+        else:
+            bs, vs, bds = B_KINDS, (0, 1), ('none', 'active', 'near')
+            lls, ns = [(nu, i) for nu in NULL_KINDS for i in ('present', 'zero', 'absent')], (0, 1)
+        for h, b, v, bd in itertools.product(hs, bs, vs, bds):
+            for (nu, i), n in itertools.product(lls, ns):
+                out.append(dict(k=k, h=h, b=b, v=v, boot='r1', bd=bd, null=nu, init=i, n=n))
     return out
 
 
@@ -337,11 +366,13 @@ def wide_space(tier, seed):
     if tier == 'quick':
         plan = [((4, 5), ('info', 'generic'), (0, 1), ('none', 'r5'), ('none', 'active'), pp, (0,), None),
                 ((6,), ('generic',), (0,), ('none', 'r8'), ('none',), pp, (0,), None),
-                ((4, 5), ('generic',), (2,), ('none', 'r8'), ('none',), pp, (1,), 'all')]
+                ((4, 5), ('generic',), (2,), ('none', 'r8'), ('none',), pp, (1,), 'all'),
+                ((4, 5), ('generic',), (1,), ('r1',), ('none',), pp, (0,), None)]
     else:
         plan = [(WIDE_K, tuple(B_KINDS), (0, 1), ('none', 'r3', 'r5', 'r8', 'const'), ('none', 'active', 'near'),
                  [('present', 'present'), ('absent', 'present'), ('present', 'zero')], (0,), None),
-                (WIDE_K, ('generic', 'rank1'), (2,), ('none', 'r8'), ('none',), pp, (1,), 'all')]
+                (WIDE_K, ('generic', 'rank1'), (2,), ('none', 'r8'), ('none',), pp, (1,), 'all'),
+                (WIDE_K, ('info', 'generic'), (1,), ('r1',), ('none', 'active'), pp, (0,), None)]
     for ks, bs, vs, boots, bds, lls, ns, ss in plan:
         for k in ks:
             for h, b, v, boot, bd in itertools.product(range(len(A_FAMILY[k])), bs, vs, boots, bds):
@@ -447,7 +478,7 @@ def fragile_zero_variances(r, m, ref):
     for fam, pre in (('classical', ''), ('robust', 'robust_'), ('bootstrap', 'bootstrap_')):
         f = ref['fam'][fam]
         mat = getattr(r.data, pre + 'varCovar', None)
-        if f is None or mat is None:
+        if f is None or mat is None or f.get('undefined'):
             continue
         scale = max(1.0, max(abs(x) for row in f['cov'] for x in row))
         for i in range(m['k']):
@@ -652,7 +683,7 @@ def pair_tol(ck, i, j, fam, field):
     if field == 'pair_p':
         t = f['pair_t'][i][j]
         return p_tol(t) if isnum(t) else ATOL
-    if field == 'cov':
+    if field == 'cov' and not f.get('undefined'):
         return ATOL * max(1.0, max(abs(x) for row in f['cov'] for x in row))
     return ATOL
 
@@ -961,17 +992,30 @@ STATS_DEFAULT = ('Number of estimated parameters', 'Sample size', 'Final log lik
                  'Akaike Information Criterion', 'Bayesian Information Criterion')
 STATS_ALT = ('Rho-square-bar for the init. model', 'Likelihood ratio test for the init. model',
              'Excluded observations', 'Rho-square for the init. model', 'Init log likelihood')
+# the rows of the null model and the remaining unconditional rows (the initial and the null log likelihood of every
+# pool model differ, so a row of one holding the figure of the other is seen) ...
+STATS_NULL = ('Null log likelihood', 'Likelihood ratio test for the null model', 'Rho-square for the null model',
+              'Rho-square-bar for the null model', 'Rho-square for the init. model', 'Init log likelihood',
+              'Final gradient norm', 'Nbr of threads')
+# ... and the rows a model has only conditionally (a bound is active / observations differ from the sample size)
+STATS_FREE = ('Number of free parameters', 'Number of estimated parameters', 'Bayesian Information Criterion')
+STATS_OBS = ('Observations', 'Sample size', 'Excluded observations')
+STATS_KINDS = {'default': STATS_DEFAULT, 'alt': STATS_ALT, 'null': STATS_NULL, 'free': STATS_FREE, 'obs': STATS_OBS}
 FLAG_NAMES = ('include_parameter_estimates', 'include_robust_stderr', 'include_robust_ttest', 'formatted',
               'use_short_names')
 
 
 def compile_tasks(tier, seed):
     n = 5 if tier == 'quick' else 7
-    stats = ['default'] if tier == 'quick' else ['default', 'alt']
+    stats = ['default'] if tier == 'quick' else ['default', 'alt', 'null', 'free', 'obs']
     t = []
     for ln in (1, 2, 3):
         for tup in itertools.permutations(range(n), ln):
             t.append(dict(part='c', seed=seed, tuple=list(tup), stats=stats))
+    if tier == 'quick':  # the two further statistics lists on the tuples of one and two models (pool of 7)
+        for ln in (1, 2):
+            for tup in itertools.permutations(range(7), ln):
+                t.append(dict(part='c', seed=seed, tuple=list(tup), stats=['null', 'free', 'obs'], flagset='formatted-x-short'))
     return t
 
 
@@ -990,7 +1034,7 @@ def check_compile(tup, seed, flags, stats_kind, rec, built=None, kinds=None, fil
             built[idx] = (m, reference(m), build_results(m))
         models.append((f'spec {idx}: pool{idx}', idx) + built[idx])
     kw = dict(zip(FLAG_NAMES, [bool(f) for f in flags]))
-    statistics = STATS_DEFAULT if stats_kind == 'default' else STATS_ALT
+    statistics = STATS_KINDS[stats_kind]
     case = dict(part='c', seed=seed, tuple=list(tup), flags=list(flags), stats=stats_kind)
     tag = f'compile tuple={list(tup)} {kw} stats={stats_kind} seed={seed}'
     view = 'compile_estimation_results'
@@ -1022,7 +1066,19 @@ def check_compile(tup, seed, flags, stats_kind, rec, built=None, kinds=None, fil
     else:
         entries = {name: (r if kinds is None or kd == 'obj' else files.path(kd, idx, r))
                    for kd, (name, idx, _, _, r) in zip(kinds or ['obj'] * len(models), models)}
-        df, conf = res.compile_estimation_results(entries, statistics=statistics, **kw)
+        # a requested row that a (readable) model does not have - no null log likelihood, no active bound, as many
+        # observations as individuals: the call may refuse (KeyError naming the row); if it answers, that cell is empty
+        lacking = [(name, lab) for (name, _, m, ref, _), ok in zip(models, readable) if ok
+                   for lab in statistics if lab not in expected_general_labels(m, ref)]
+        try:
+            df, conf = res.compile_estimation_results(entries, statistics=statistics, **kw)
+        except KeyError as e:
+            if not lacking or e.args[0] not in [lab for _, lab in lacking]:
+                raise
+            rec.count('compile_refused_row_the_model_does_not_have')
+            rec.case(None, (list(tup), list(flags), stats_kind, 'refused', str(e.args[0])),
+                     outcome=('compile-refused-unavailable-row', str(e.args[0])))
+            return
         cols = [f'Model_{i:06d}' if kw['use_short_names'] else name for i, (name, *_rest) in enumerate(models)]
         ck0.structure(view, 'columns', cols, list(df.columns))
         ck0.structure(view, 'configurations', {c: name for c, (name, *_r) in zip(cols, models)}, dict(conf))
@@ -1071,8 +1127,11 @@ def check_compile(tup, seed, flags, stats_kind, rec, built=None, kinds=None, fil
             bad += ck.bad
             continue
         named_g = ck.named_general()
+        have = expected_general_labels(m, ref)
         for lab in statistics:
-            if lab in df.index:
+            if lab in df.index and lab not in have:
+                ck.structure(vkey, 'cell of a statistic the model does not have is empty', '', df.loc[lab, col])
+            elif lab in df.index:
                 key, _ = GENERAL_LABELS[lab]
                 ck.num(vkey, f'statistic row:{lab}', f'[{lab},{col}]', df.loc[lab, col], general_ref(ck, key), named_g, key)
         for lab, (nm, what) in prow.items():
@@ -1127,8 +1186,11 @@ def run_compile_task(task, rec):
         check_compile(task['tuple'], task['seed'], task['flags'], task['stats'], rec, built)
         return
     first = True
+    allflags = list(itertools.product((1, 0), repeat=5))
+    if task.get('flagset') == 'formatted-x-short':  # the statistic rows do not depend on the three parameter switches
+        allflags = [f for f in allflags if f[0] == f[1] == f[2]]
     for sk in task['stats']:
-        for flags in itertools.product((1, 0), repeat=5):
+        for flags in allflags:
             try:
                 check_compile(task['tuple'], task['seed'], list(flags), sk, rec, built)
             except Exception as e:
@@ -1292,11 +1354,13 @@ def lr_grid(tier, seed):
 
 
 def lr_reference(m1, m2, alpha):
+    """the test of an unordered pair of models: 'ok' (statistic, degrees of freedom) / 'error' (the model with more
+    parameters fits worse) / 'no-test' (as many parameters in both: the chi-square distribution with
+    K1 - K2 = 0 degrees of freedom has no quantile, no threshold and no verdict follow from any formula).
+    Two equal log likelihoods with different parameter counts are an ordinary pair: statistic 0, never rejected."""
     (l1, k1), (l2, k2) = m1, m2
-    if l1 == l2:
-        return ('excluded', 'tie of the two log likelihoods')
     if k1 == k2:
-        return ('excluded', 'same number of parameters (not nested)')
+        return ('no-test',)
     (lu, ku), (lr_, kr) = (m1, m2) if k1 > k2 else (m2, m1)
     if lu < lr_:
         return ('error',)
@@ -1326,6 +1390,20 @@ def check_lr(form, m1, m2, alpha, seed, rec, objs=None):
         return
     key = ('l', form, tuple(m1), tuple(m2), alpha)
     order = 'unrestricted-first' if m1[1] > m2[1] else 'restricted-first'
+    if ref[0] == 'no-test':
+        # the same number of parameters: no chi-square quantile exists; whatever is reported as threshold / verdict
+        # does not follow from the raw outcome.  A refusal (BiogemeError) is the only answer without a figure.
+        rel = 'tie' if m1[0] == m2[0] else ('first-fits-better' if m1[0] > m2[0] else 'first-fits-worse')
+        rec.case(key, (form, m1, m2, alpha, obs[0]), outcome=('lr-no-test', rel, obs[0]))
+        if obs[0] != 'error':
+            rec.violation(f'{ID}|likelihood_ratio_test|equal-parameter-counts:verdict-and-threshold-reported',
+                          f'{tag}: both models have {m1[1]} parameters (chi-square with 0 degrees of freedom: no '
+                          f'threshold exists), yet a verdict is reported: message {obs[1]!r}, statistic {obs[2]!r}, '
+                          f'threshold {obs[3]!r}; the same pair in the other order is refused with a BiogemeError '
+                          f'(first model: {rel})', case, expected='BiogemeError (no test between models with the same '
+                          'number of parameters)', observed=[obs[0], obs[1], repr(obs[2]), repr(obs[3])])
+        return
+    tie = m1[0] == m2[0]
     if ref[0] == 'error':
         rec.case(key, (form, m1, m2, alpha, obs[0]), outcome=('lr-error-expected', obs[0]))
         if obs[0] != 'error':
@@ -1335,7 +1413,15 @@ def check_lr(form, m1, m2, alpha, seed, rec, objs=None):
         return
     _, stat, df = ref
     if obs[0] != 'ok':
-        rec.case(key, (form, m1, m2, alpha, obs[0]), outcome=('lr-ok-expected', obs[0]))
+        rec.case(key, (form, m1, m2, alpha, obs[0]), outcome=('lr-ok-expected', obs[0], tie))
+        if tie:
+            # one root cause whatever the call form: its own key
+            rec.violation(f'{ID}|likelihood_ratio_test|equal-log-likelihoods-refused:{order}',
+                          f'{tag}: the two log likelihoods are equal (statistic 0, {df} degrees of freedom: H0 cannot be '
+                          f'rejected); the pair is refused: {obs} - the model with more parameters does not have a lower '
+                          f'log likelihood, and the same pair in the other order is accepted', case,
+                          expected=['ok', stat, df], observed=list(obs))
+            return
         rec.violation(f'{ID}|likelihood_ratio_test|valid-pair-refused:{form}:{order}',
                       f'{tag}: valid nested pair refused: {obs}', case, expected=['ok', stat, df], observed=list(obs))
         return
@@ -1408,9 +1494,12 @@ REAL_DATA4 = [
     dict(x1=[1.0, 2.0, 3.0, 4.0, 1.5, 0.5], x2=[1.0, 2.5, 0.5, 2.0, 3.0, 1.5], x3=[2.0, 0.5, 1.5, 1.0, 0.0, 2.5],
          y=[3.25, 4.5, 4.0, 6.25, 4.0, 3.5]),
 ]
-REAL_MODELS = ['ls1', 'ls2', 'logit2', 'ls4']
-REAL_K = {'ls1': 1, 'ls2': 2, 'logit2': 2, 'ls4': 4}
-REAL_N = {'ls1': 4, 'ls2': 4, 'logit2': 6, 'ls4': 6}
+# 'logit2i': the logit with non-zero starting values - its initial log likelihood differs from its null log likelihood
+# (with the starting values 0 of 'logit2' the two coincide and the rows of one cannot be told from the other's)
+REAL_MODELS = ['ls1', 'ls2', 'logit2', 'ls4', 'logit2i']
+REAL_K = {'ls1': 1, 'ls2': 2, 'logit2': 2, 'ls4': 4, 'logit2i': 2}
+REAL_N = {'ls1': 4, 'ls2': 4, 'logit2': 6, 'ls4': 6, 'logit2i': 6}
+LOGIT_START = [(0.5, -0.25), (-0.25, 0.5), (0.25, 0.75), (-0.5, -0.5)]
 REAL_THR = ['one', 'e+4']
 
 
@@ -1423,11 +1512,12 @@ def real_biogeme(model, seed, nboot, thr='default'):
     from biogeme.parameters import Parameters
 
     names = NAME_POOLS[seed % 4]
-    if model == 'logit2':
+    if model in ('logit2', 'logit2i'):
         data = LOGIT_DATA[seed % 2]
         d = db.Database('c08real', pd.DataFrame(data))
-        bt = Beta(names[2][0], 0.0, None, None, 0)
-        asc = Beta(names[2][1], 0.0, None, None, 0)
+        s0 = LOGIT_START[seed % 4] if model == 'logit2i' else (0.0, 0.0)
+        bt = Beta(names[2][0], s0[0], None, None, 0)
+        asc = Beta(names[2][1], s0[1], None, None, 0)
         v = {1: asc + bt * Variable('x1'), 2: bt * Variable('x2')}
         ll = models.loglogit(v, None, Variable('choice'))
     elif model == 'ls4':
@@ -1449,7 +1539,7 @@ def real_biogeme(model, seed, nboot, thr='default'):
     b = bb.BIOGEME(d, ll, parameters=Parameters(), generate_html=False, generate_pickle=False,
                    save_iterations=False, number_of_threads=1, bootstrap_samples=max(nboot, 1), **extra)
     b.modelName = 'c08real_' + model
-    if model == 'logit2':
+    if model in ('logit2', 'logit2i'):
         b.calculate_null_loglikelihood({1: 1, 2: 1})
     return b, len(next(iter(data.values())))
 
@@ -1470,8 +1560,12 @@ def real_tasks(tier, seed):
     for model in REAL_MODELS:
         n = REAL_N[model]
         pool = tape_pool(n)[:5 if tier == 'quick' else 6]
+        if model == 'logit2i' and tier == 'quick':
+            pool = pool[:4]
         sizes = (3,) if tier == 'quick' else (2, 3, 4)
         tapes = [None] + [list(c) for b in sizes for c in itertools.combinations(range(len(pool)), b)]
+        # bootstrap samples of ONE replication (every figure of the bootstrap family is undefined, the rest is not)
+        tapes += [[i] for i in range(1 if tier == 'quick' else len(pool))]
         for i in range(0, len(tapes), 4):
             t.append(dict(part='r', seed=seed, model=model, tapes=tapes[i:i + 4]))
         # the identification_threshold parameter of BIOGEME (forwarded to the results object) x tapes
@@ -1536,7 +1630,7 @@ def check_real(model, tape, seed, rec, sample=False, thr='default'):
         rec.count('skipped_out_of_domain_hessian_not_nsd')
         rec.case(None, (model, tape, 'not-nsd'), outcome='real-not-nsd')
         return
-    if m['bootstrap'] is not None:
+    if m['bootstrap'] is not None and len(m['bootstrap']) >= 2:
         cov = rs.to_float(rs.sample_cov(m['bootstrap']))
         mean2 = [sum(row[j] for row in m['bootstrap']) ** 2 / len(m['bootstrap']) ** 2 for j in range(m['k'])]
         if any(cov[j][j] < 1e-4 * max(mean2[j], 1e-12) for j in range(m['k'])):
